@@ -249,17 +249,11 @@ func pick(strata [4][]*item, budget int) (sel []*item, complete bool) {
 	const perBase = 4
 	complete = true
 	left := budget
+	var picked [4][][]*item // per stratum: groups of placements of one base grammar
 	for s := 0; s < 4; s++ {
 		share := left / (4 - s)
 		list := strata[s]
-		if len(list) <= share {
-			sel = append(sel, list...)
-			left -= len(list)
-			continue
-		}
-		complete = false
-		// group by base grammar (contiguous), pick bases by stride and up to perBase placements
-		// of each picked base by stride: the no-recovery twin is built once per base
+		// group by base grammar (contiguous)
 		var groups [][]*item
 		for i := 0; i < len(list); {
 			j := i
@@ -269,17 +263,41 @@ func pick(strata [4][]*item, budget int) (sel []*item, complete bool) {
 			groups = append(groups, list[i:j])
 			i = j
 		}
+		if len(list) <= share {
+			picked[s] = groups
+			left -= len(list)
+			continue
+		}
+		complete = false
+		// pick bases by stride and up to perBase placements of each picked base by stride: the
+		// no-recovery twin is built once per base
 		nb := min((share+perBase-1)/perBase, len(groups))
 		taken := 0
 		for b := 0; b < nb && taken < share; b++ {
 			g := groups[b*len(groups)/nb]
 			m := min(perBase, len(g), share-taken)
+			var sub []*item
 			for i := 0; i < m; i++ {
-				sel = append(sel, g[i*len(g)/m])
+				sub = append(sub, g[i*len(g)/m])
 			}
+			picked[s] = append(picked[s], sub)
 			taken += m
 		}
 		left -= taken
+	}
+	// run order: round-robin over the strata, one base group at a time, so that a run cut short
+	// by the time budget has still seen every stratum
+	for i := 0; ; i++ {
+		any := false
+		for s := 0; s < 4; s++ {
+			if i < len(picked[s]) {
+				sel = append(sel, picked[s][i]...)
+				any = true
+			}
+		}
+		if !any {
+			break
+		}
 	}
 	return
 }
@@ -367,14 +385,17 @@ const drvSrc = `package PKGNAME
 
 import (
 	"fmt"
+	"os"
 	"runtime/debug"
 	"strconv"
 	"strings"
+	"time"
 
 	"scratch/rt"
 )
 
 type vOut struct {
+	hang           bool
 	accept         bool
 	errOff, errEnd int
 	errMsg         string
@@ -431,6 +452,30 @@ func verifParse(text string, stop bool) (o vOut) {
 	return o
 }
 
+// verifParseTimed is verifParse with a watchdog for loops that have no observable step: the
+// parse runs in its own goroutine; if it does not come back within 3 s it is abandoned (the
+// goroutine keeps spinning) and reported as "H". The check believes an H only after the single
+// input was re-run alone with a long timeout.
+func verifParseTimed(text string, stop bool) vOut {
+	ch := make(chan vOut, 1)
+	go func() { ch <- verifParse(text, stop) }()
+	t := time.NewTimer(3 * time.Second)
+	defer t.Stop()
+	select {
+	case o := <-ch:
+		return o
+	case <-t.C:
+		return vOut{hang: true}
+	}
+}
+
+// hangs counts abandoned parses of the whole driver process (all packages): an environment
+// variable is the only process-wide state the packages share.
+func hangs() int {
+	n, _ := strconv.Atoi(os.Getenv("VERIF_C19_HANGS"))
+	return n
+}
+
 func clean(s string) string {
 	if i := strings.IndexByte(s, '\n'); i >= 0 {
 		s = s[:i]
@@ -440,6 +485,8 @@ func clean(s string) string {
 
 func (o *vOut) verdict() string {
 	switch {
+	case o.hang:
+		return "H"
 	case o.panicMsg != "":
 		return "P:" + clean(o.panicMsg)
 	case o.aborted:
@@ -509,9 +556,17 @@ func VerifRun(entry, mode, text string) (res rt.Result) {
 	var order []string
 	sent := map[string]string{}
 	runs := 0
+	truncated := ""
+	if hangs() >= 4 {
+		res.Extra = map[string]any{"skipped": "too many abandoned parses in this driver process"}
+		return res
+	}
 	buf := make([]byte, 0, L)
 	var rec func(k int)
 	visit := func(w string) {
+		if truncated != "" {
+			return
+		}
 		var tk []byte
 		var pos []int
 		hash := false
@@ -530,8 +585,16 @@ func VerifRun(entry, mode, text string) (res rt.Result) {
 			panic("no expectation for " + string(tk))
 		}
 		for _, stop := range []bool{false, true} {
-			o := verifParse(w, stop)
+			if truncated != "" {
+				return
+			}
+			o := verifParseTimed(w, stop)
 			runs++
+			if o.hang {
+				// one abandoned goroutine per sweep is enough; the rest of this sweep is not run
+				truncated = w
+				os.Setenv("VERIF_C19_HANGS", strconv.Itoa(hangs()+1))
+			}
 			flags := ""
 			if e < 0 {
 				if hash {
@@ -584,6 +647,9 @@ func VerifRun(entry, mode, text string) (res rt.Result) {
 		out = append(out, []any{k, classes[k].n, classes[k].first})
 	}
 	res.Extra = map[string]any{"classes": out, "sent": sent, "runs": runs}
+	if truncated != "" {
+		res.Extra["truncated"] = truncated
+	}
 	res.Accept = true
 	return res
 }
@@ -620,6 +686,9 @@ func judge(o obs) []finding {
 	switch {
 	case strings.HasPrefix(o.verdict, "P:"):
 		add("panic", "the parser panics: "+o.verdict[2:])
+		return fs
+	case o.verdict == "H":
+		add("non-termination:no-observable-step", "the parser does not return and calls neither the listener nor the handler")
 		return fs
 	case o.verdict == "B":
 		add("non-termination:step-budget", "the parser is still reporting after 10^4*(len+1) listener/handler calls")
@@ -846,7 +915,7 @@ func run(c *core.Ctx) {
 	c.Transitions(r.runs)
 	c.Traces(r.traces)
 	if r.hungMore > 0 {
-		c.Capped(fmt.Sprintf("%d further hanging sweeps were not localised to a single input", r.hungMore))
+		c.Capped(fmt.Sprintf("%d further suspected hangs were not re-run alone", r.hungMore))
 	}
 	debugf("layer B done")
 	shippedPart(c)
@@ -954,10 +1023,14 @@ func (r *runner) batch(items []*item, offset int) {
 		}
 		res := out.Results[0]
 		if res.Extra != nil && res.Extra["skipped"] != nil {
-			c.Capped("some sweeps were skipped because the driver process died after hanging cases")
+			c.Add("sweeps_skipped_after_hangs", 1)
+			c.Capped("some sweeps were skipped because earlier parses in the same driver process did not return")
 			continue
 		}
 		c.Add("grammars_built", 1)
+		if res.Extra != nil && res.Extra["truncated"] != nil {
+			c.Add("sweeps_truncated_after_hang", 1)
+		}
 		if res.Hang || res.Panic != "" {
 			r.locate(it, p.tm, r.twinTM[p.twin], p.exp, res)
 			continue
@@ -993,6 +1066,11 @@ func (r *runner) batch(items []*item, offset int) {
 				}
 			}
 			distinct[f[1]+"|"+f[2]+"|"+f[3]] = true
+			if o.verdict == "H" {
+				// not believed yet: re-run this single input alone with a long timeout
+				r.confirmHang(it, rc(first, stop), p.exp)
+				continue
+			}
 			for _, fd := range judge(o) {
 				c.Violate(keyFor(it.v, fd.key), fmt.Sprintf("%s; input %q (stop=%v), grammar %s + %s variant %+v", fd.what, first, stop, it.base, rulesString(it.errs), it.v), rc(first, stop))
 			}
@@ -1055,6 +1133,35 @@ func (r *runner) batch(items []*item, offset int) {
 		if c.SampleCount() < 6 && nRecovered > 0 {
 			c.Sample(map[string]any{"grammar": it.base.String(), "error_rules": rulesString(it.errs), "variant": it.v, "sentences": len(ws), "distinct_outcomes": len(distinct)})
 		}
+	}
+}
+
+// confirmHang re-runs one input whose parse was abandoned by the sweep watchdog, alone, with a
+// 45 s timeout. Only this run is believed.
+func (r *runner) confirmHang(it *item, k recCase, exp map[string]int) {
+	c := r.c
+	if r.located >= 2 {
+		r.hungMore++
+		return
+	}
+	r.located++
+	mode := "one"
+	if k.Stop {
+		mode = "one-stop"
+	}
+	outs, err := genharness.RunBatch([]genharness.Spec{{Name: tmName(k.TM), TM: k.TM, Driver: driver, Cases: []genharness.Case{{Mode: mode, Text: k.Text}}}}, genharness.BatchOpts{CaseTimeout: 45 * time.Second})
+	if err != nil || len(outs) != 1 || len(outs[0].Results) != 1 {
+		c.Violate("layerB:harness", fmt.Sprintf("cannot re-run a suspected hang: %v", err), k)
+		return
+	}
+	res := outs[0].Results[0]
+	if res.Hang {
+		c.Violate(keyFor(it.v, "non-termination:no-observable-step"), fmt.Sprintf("the parser does not return within 45 s on the %d-byte input %q (stop=%v) run alone, and calls neither the listener nor the handler meanwhile; grammar %s + %s variant %+v", len(k.Text), k.Text, k.Stop, it.base, rulesString(it.errs), it.v), k)
+		return
+	}
+	c.Add("suspected_hangs_not_reproduced", 1)
+	for _, fd := range judge(obsFor(exp, k.Text, k.Stop, resultVerdict(res), res.Handler)) {
+		c.Violate(keyFor(it.v, fd.key), fmt.Sprintf("%s; input %q (stop=%v), grammar %s + %s variant %+v", fd.what, k.Text, k.Stop, it.base, rulesString(it.errs), it.v), k)
 	}
 }
 
